@@ -12,7 +12,10 @@ def SPEC(tier):
                '(unit length, in span{x,y}, polar angle a*(theta+k*pi) on the shorter/oriented arc, end points, finiteness, slerp(x,y,a)=+-slerp(y,x,1-a)) under the forward-error bound of the interpolation formula '
                '(conditioning 1/sin theta resp. 1/sin^2 theta, x8 margin), lerp overloads bit-for-bit against x*(1-a)+y*a in T; a case is non-trivial when theta is in (1e-6, pi-1e-6), a is not 0 or 1 and its bound is '
                'below 1e-2; zones (below / around / above the threshold, sign ambiguous, ill-conditioned) are counted separately')
-    d['stages'] = [Stage('opt', ['props/C13_slerp.cpp', 'props/C13_gtx.cpp'])]
+    srcs = ['props/C13_slerp.cpp', 'props/C13_gtx.cpp']
+    # the interpolation functions build their results through constructors whose argument / memory order depends on the two
+    # quaternion-order macros: the same harness is also built under each of them
+    d['stages'] = [Stage('opt', srcs), Stage('opt-wxyz', srcs, flags=['-DGLM_FORCE_QUAT_DATA_WXYZ'], scale=0.25), Stage('opt-xyzw', srcs, flags=['-DGLM_FORCE_QUAT_DATA_XYZW'], scale=0.25)]
     return d
 
 
